@@ -182,7 +182,7 @@ def c06_jobs(tier):
                 str_job('cmp', 'str-cmp-len4', 4), str_job('rich', 'str-rich-asan-n4', 4, san='asan'), str_job('rich', 'str-rich-asan-n9-2letters', 9, 2, san='asan'),
                 str_job('length', 'str-length-asan-n40', 40, san='asan')]
     D = 2400
-    return [str_job('rich', 'str-rich-n8-4letters', 8, deadline=D), str_job('rich', 'str-rich-n10-3letters', 10, 3, deadline=D), str_job('rich', 'str-rich-n17-2letters', 17, 2, deadline=D),
+    return [str_job('rich', 'str-rich-n8-4letters', 8, deadline=D), str_job('rich', 'str-rich-n10-3letters', 10, 3, deadline=D), str_job('rich', 'str-rich-n13-2letters', 13, 2, deadline=D),
             str_job('length', 'str-length-n72', 72, deadline=D), str_job('cmp', 'str-cmp-len5', 5, deadline=D),
             str_job('rich', 'str-rich-asan-n6', 6, san='asan', deadline=D), str_job('rich', 'str-rich-asan-n10-2letters', 10, 2, san='asan', deadline=D),
             str_job('length', 'str-length-asan-n72', 72, san='asan', deadline=D)]
@@ -200,7 +200,7 @@ CHECKS['C06'] = {
     'assumptions': ['host vsnprintf is the definition of what the C formatter produces', 'the raw setters a_str_setn_/a_str_setm_ are driven within their documented preconditions (k <= capacity); a_str_setm_ below the length is a capacity operation the statement does not list',
                     'isspace is evaluated in the "C" locale'],
     'design_ref': '§4.C06', 'technique': 'explicit-state BFS to a fixpoint over the real str.c against an abstract byte string, canary allocator + ASan for the +1/+2 terminator reservations, API-replay conformance of every state',
-    'level_text': 'Every string operation is executed from every reachable (capacity, content) state up to the length bound (6-9 bytes content-rich and 40 bytes length-focused in quick; 8-17 and 72 in thorough), across every 8-byte reallocation boundary, and compared with an abstract byte string including terminator placement and formatted-append return values; all pairs of short strings for the comparison functions.',
+    'level_text': 'Every string operation is executed from every reachable (capacity, content) state up to the length bound (6-9 bytes content-rich and 40 bytes length-focused in quick; 8-13 and 72 in thorough), across every 8-byte reallocation boundary, and compared with an abstract byte string including terminator placement and formatted-append return values; all pairs of short strings for the comparison functions.',
     'level_note': 'Trusted: gcc/clang+ASan, the allocator shim, host libc formatter. Not covered: content longer than the bound; formats other than the six listed.',
 }
 
